@@ -102,3 +102,290 @@ Defined.
 
 Definition law_lo_dbkv (g : vguards) : elem_law (lo_ce_dbkv g) :=
   law_pair dbvalue dbvalue (lo_ce_dbvalue g) (lo_ce_dbvalue g) (law_lo_dbvalue g) (law_lo_dbvalue g).
+(* ==== part: .cache/part3.v ==== *)
+
+(* ---- the representation predicates do not see which of the two value classes is used ---- *)
+Section Conv.
+  Variable g0 : vguards.
+
+  Lemma vrep_kv_conv gh h bss l :
+    vrep kv ce_dbkv law_dbkv gh h bss l -> vrep kv (lo_ce_dbkv g0) (law_lo_dbkv g0) gh h bss l.
+  Proof. intros [[Hrec Hel Hnd] Hlen Hcap Hfits]. constructor; [constructor|..]; assumption. Qed.
+
+  Lemma vrep_dbv_conv gh h bss l :
+    vrep dbvalue ce_dbvalue law_dbvalue gh h bss l -> vrep dbvalue (lo_ce_dbvalue g0) (law_lo_dbvalue g0) gh h bss l.
+  Proof. intros [[Hrec Hel Hnd] Hlen Hcap Hfits]. constructor; [constructor|..]; assumption. Qed.
+
+  Lemma msep_ids_conv gh d ss ks vs ls lk lv :
+    msep dbvalue Z ce_dbvalue ce_i64 law_dbvalue law_i64 gh d ss ks vs ls lk lv ->
+    msep dbvalue Z (lo_ce_dbvalue g0) ce_i64 (law_lo_dbvalue g0) law_i64 gh d ss ks vs ls lk lv.
+  Proof. intros [H1 H2 H3 H4 H5 H6]. constructor; try assumption. apply vrep_dbv_conv. exact H3. Qed.
+End Conv.
+
+(* ---- the database both loaders return, in terms of the representation witness ---- *)
+Fixpoint sd_ix_concrete (ws : list (sd_mapw dbvalue Z)) (ixs : list index) : list index :=
+  match ws, ixs with
+  | w :: ws', ix :: ixs' => (fst ix, sd_table_entries (mw_t w)) :: sd_ix_concrete ws' ixs'
+  | _, _ => []
+  end.
+Definition sd_concrete (w : sd_wit) (d : db) : db :=
+  {| gr := gr d;
+     aliases := {| k2v := sd_table_entries (mw_t (sw_a1 w)); v2k := sd_table_entries (mw_t (sw_a2 w)) |};
+     vals := vals d; indexes := sd_ix_concrete (sw_iw w) (indexes d); undo := [] |}.
+
+Section Specs.
+  Variable fl : bool.
+  Variable g0 : vguards.
+
+  (* ---- the loader of StoredDb.v, with its result named ---- *)
+  Lemma sd_index_list_load_concrete : forall es ws ixs sp (Q : cres (list index) -> spec -> Prop),
+    sd_ix_rep (hp sp) es ws ixs -> Q (CrOk (sd_ix_concrete ws ixs)) sp -> cwp fl (sd_index_list_load es) sp Q.
+  Proof.
+    induction es as [|e r IH]; intros [|w ws] [|ix ixs] sp Q H HQ; cbn [sd_ix_rep] in H; try contradiction;
+      cbn [sd_index_list_load sd_ix_concrete] in *; [exact HQ|].
+    destruct H as [(ixb & mi & -> & Hmi & Hk & Hm) Hr].
+    assert (L16 : length ixb = 16%nat).
+    { pose proof (el_len ce_dbvalue law_dbvalue _ _ _ Hk) as HL. cbn [ce_size ce_dbvalue] in HL. unfold lenN in HL. lia. }
+    apply cwp_bind. unfold sd_index_load.
+    apply cwp_bind. rewrite firstn_app_l by (symmetry; exact L16).
+    eapply (el_load ce_dbvalue law_dbvalue); [exact Hk|]. cbn [kont].
+    apply cwp_bind. rewrite skipn_app_l by (symmetry; exact L16). rewrite cp_de64_le64 by exact Hmi. cbn [cwp kont].
+    apply cwp_bind. eapply sd_map_load_spec; [exact Hm|]. intros HP. cbn [kont cwp].
+    apply cwp_bind. eapply IH; [exact Hr|]. cbn [kont cwp]. exact HQ.
+  Qed.
+
+  Theorem sd_load_concrete root d w sp :
+    stored_db_w (hp sp) root d w ->
+    cwp fl (sd_load root) sp (fun r sp' => sp' = sp /\ r = CrOk (sd_concrete w d)).
+  Proof.
+    intros [Hroot Hu64 _ Hg Hgi Ha1 Hk1 Ha2 Hk2 Hiv Hii Hix Hvv Hvi Hv _].
+    unfold sd_load.
+    apply cwp_bind. unfold sd_root_load. apply cwp_bind. eapply cwp_value; [exact Hroot|]. cbn [kont].
+    apply cr_de_ser; [exact Hu64|]. cbn [kont].
+    apply cwp_bind. rewrite <- Hgi. eapply sd_graph_load_spec; [exact Hg|]. cbn [kont].
+    apply cwp_bind. eapply sd_map_load_spec; [exact Ha1|]. intros P1. cbn [kont].
+    apply cwp_bind. eapply sd_map_load_spec; [exact Ha2|]. intros P2. cbn [kont].
+    apply cwp_bind. unfold sd_indexes_load. apply cwp_bind. rewrite <- Hii.
+    eapply sd_vec_load_spec; [exact Hiv|]. cbn [kont].
+    eapply sd_index_list_load_concrete; [exact Hix|]. cbn [kont].
+    apply cwp_bind. unfold sd_values_load. apply cwp_bind. rewrite <- Hvi.
+    eapply sd_vec_load_spec; [exact Hvv|]. cbn [kont].
+    eapply sd_kvs_load_spec; [exact Hv|]. cbn [kont cwp].
+    split; reflexivity.
+  Qed.
+End Specs.
+(* ==== part: .cache/part4.v ==== *)
+
+(* ---- the programs of LoadOutcome.v only read ---- *)
+Lemma sd_reads_lo_dbvalue g0 : sd_elem_reads (lo_ce_dbvalue g0).
+Proof.
+  intros bs. cbn [ce_load lo_ce_dbvalue]. apply sd_reads_bind; [apply sd_reads_outcome|]. intros ix.
+  unfold lo_value_load.
+  destruct (is_numeric_type (vi_type ix) && negb (vi_size ix =? 8)); [destruct (vg_num_checked g0); exact I|].
+  destruct (negb (is_known_type (vi_type ix))); [destruct (vg_type_checked g0); exact I|].
+  destruct (lo_needs_record ix); [|apply sd_reads_outcome].
+  apply sd_reads_bind; [apply sd_reads_value|]. intros b. apply sd_reads_outcome.
+Qed.
+Lemma sd_reads_lo_dbkv g0 : sd_elem_reads (lo_ce_dbkv g0).
+Proof. apply sd_reads_pair; apply sd_reads_lo_dbvalue. Qed.
+
+Lemma sd_reads_cm_from_storage K V (EK : cv_elem K) (EV : cv_elem V) i : sd_reads (cm_from_storage K V EK EV i).
+Proof.
+  unfold cm_from_storage. apply sd_reads_bind; [apply sd_reads_value|]. intros b. destruct (lenN b <? 32); [exact I|].
+  apply sd_reads_bind; [apply sd_reads_from_storage|]. intros s.
+  apply sd_reads_bind; [apply sd_reads_from_storage|]. intros k.
+  apply sd_reads_bind; [apply sd_reads_from_storage|]. intros v. exact I.
+Qed.
+Lemma sd_reads_lo_map_read K V (EK : cv_elem K) (EV : cv_elem V) d :
+  sd_elem_reads EK -> sd_elem_reads EV -> sd_reads (lo_map_read K V EK EV d).
+Proof.
+  intros HK HV. unfold lo_map_read. apply sd_reads_bind; [apply sd_reads_values, sd_reads_state|]. intros ss.
+  apply sd_reads_bind; [apply sd_reads_values, HK|]. intros ks.
+  apply sd_reads_bind; [apply sd_reads_values, HV|]. intros vs. exact I.
+Qed.
+
+Lemma sd_reads_lo_open_root g0 r : sd_reads (lo_open_root g0 r).
+Proof.
+  unfold lo_open_root. apply sd_reads_bind.
+  { unfold cg_from_storage. apply sd_reads_bind; [apply sd_reads_value|]. intros b.
+    do 4 (apply sd_reads_bind; [apply sd_reads_de64|]; intros ?).
+    do 4 (apply sd_reads_bind; [apply sd_reads_from_storage|]; intros ?). exact I. }
+  intros gd. apply sd_reads_bind; [apply sd_reads_cm_from_storage|]. intros a1.
+  apply sd_reads_bind; [apply sd_reads_cm_from_storage|]. intros a2.
+  apply sd_reads_bind.
+  { unfold lo_indexes_open. apply sd_reads_bind; [apply sd_reads_vec_load, sd_reads_raw|]. intros es.
+    induction es as [|e t IH]; cbn [lo_index_list_open]; [exact I|].
+    apply sd_reads_bind.
+    { unfold lo_index_open. apply sd_reads_bind; [apply sd_reads_lo_dbvalue|]. intros key.
+      apply sd_reads_bind; [apply sd_reads_de64|]. intros mi.
+      apply sd_reads_bind; [apply sd_reads_cm_from_storage|]. intros d. exact I. }
+    intros x. apply sd_reads_bind; [exact IH|]. intros t'. exact I. }
+  intros ix. apply sd_reads_bind; [apply sd_reads_from_storage|]. intros vs. exact I.
+Qed.
+
+Lemma sd_reads_lo_read g0 h : sd_reads (lo_read g0 h).
+Proof.
+  unfold lo_read. apply sd_reads_bind.
+  { unfold lo_graph_read. do 4 (apply sd_reads_bind; [apply sd_reads_values, sd_reads_i64|]; intros ?). exact I. }
+  intros gr0. apply sd_reads_bind; [apply sd_reads_lo_map_read; [apply sd_reads_string|apply sd_reads_i64]|]. intros a1.
+  apply sd_reads_bind; [apply sd_reads_lo_map_read; [apply sd_reads_i64|apply sd_reads_string]|]. intros a2.
+  apply sd_reads_bind.
+  { induction (lh_indexes h) as [|x t IH]; cbn [lo_index_list_read]; [exact I|].
+    apply sd_reads_bind; [apply sd_reads_lo_map_read; [apply sd_reads_lo_dbvalue|apply sd_reads_i64]|]. intros ids.
+    apply sd_reads_bind; [exact IH|]. intros t'. exact I. }
+  intros ix. apply sd_reads_bind; [apply sd_reads_values, sd_reads_u64|]. intros idxs.
+  apply sd_reads_bind.
+  { induction idxs as [|i t IH]; cbn [lo_kvs_read]; [exact I|].
+    apply sd_reads_bind; [destruct (i =? 0); [exact I|apply sd_reads_vec_load, sd_reads_lo_dbkv]|]. intros l.
+    apply sd_reads_bind; [exact IH|]. intros t'. exact I. }
+  intros vs. exact I.
+Qed.
+
+Definition lo_prog (g0 : vguards) (b : bytes) : cprog db :=
+  h <~ (r <~ cr_de b ;; lo_open_root g0 r) ;; lo_read g0 h.
+
+Lemma sd_reads_lo_prog g0 b : sd_reads (lo_prog g0 b).
+Proof.
+  unfold lo_prog. apply sd_reads_bind.
+  - apply sd_reads_bind.
+    + unfold cr_de. do 6 (apply sd_reads_bind; [apply sd_reads_de64|]; intros ?). exact I.
+    + intros r. apply sd_reads_lo_open_root.
+  - intros h. apply sd_reads_lo_read.
+Qed.
+
+(* ---- the programs of LoadOutcome.v on a stored database ---- *)
+Section NewSpecs.
+  Variable fl : bool.
+  Variable g0 : vguards.
+
+  Fixpoint lo_ih_rep (gh : heap) (hs : list lo_index_h) (ws : list (sd_mapw dbvalue Z)) (ixs : list index) : Prop :=
+    match hs, ws, ixs with
+    | [], [], [] => True
+    | h :: hs', w :: ws', ix :: ixs' =>
+      (lih_key h = fst ix /\
+       msep dbvalue Z (lo_ce_dbvalue g0) ce_i64 (law_lo_dbvalue g0) law_i64 gh (lih_ids h) (mw_ss w) (mw_ks w) (mw_vs w)
+            (ct_states (mw_t w)) (ct_keys (mw_t w)) (ct_values (mw_t w))) /\
+      lo_ih_rep gh hs' ws' ixs'
+    | _, _, _ => False
+    end.
+
+  Lemma lo_index_list_open_spec : forall es ws ixs sp (Q : cres (list lo_index_h) -> spec -> Prop),
+    sd_ix_rep (hp sp) es ws ixs ->
+    (forall hs, lo_ih_rep (hp sp) hs ws ixs -> Q (CrOk hs) sp) ->
+    cwp fl (lo_index_list_open g0 es) sp Q.
+  Proof.
+    induction es as [|e r IH]; intros [|w ws] [|ix ixs] sp Q H HQ; cbn [sd_ix_rep] in H; try contradiction;
+      cbn [lo_index_list_open]; [apply (HQ []); exact I|].
+    destruct H as [(ixb & mi & -> & Hmi & Hk & Hm) Hr].
+    assert (L16 : length ixb = 16%nat).
+    { pose proof (el_len ce_dbvalue law_dbvalue _ _ _ Hk) as HL. cbn [ce_size ce_dbvalue] in HL. unfold lenN in HL. lia. }
+    apply cwp_bind. unfold lo_index_open.
+    apply cwp_bind. rewrite firstn_app_l by (symmetry; exact L16).
+    eapply (el_load (lo_ce_dbvalue g0) (law_lo_dbvalue g0)); [exact Hk|]. cbn [kont].
+    apply cwp_bind. rewrite skipn_app_l by (symmetry; exact L16). rewrite cp_de64_le64 by exact Hmi. cbn [cwp kont].
+    destruct Hm as (HM & Ei & HP). destruct HM as [HS _ _]. rewrite <- Ei.
+    apply cwp_bind. eapply cm_from_storage_spec; [apply msep_ids_conv; exact HS|]. intros d' HS' _ _ _ _. cbn [kont cwp].
+    apply cwp_bind. eapply IH; [exact Hr|]. intros hs Hhs. cbn [kont cwp].
+    apply HQ. cbn [lo_ih_rep lih_key lih_ids]. split; [split; [reflexivity|exact HS']|exact Hhs].
+  Qed.
+
+  Lemma lo_map_read_spec K V (EK : cv_elem K) (EV : cv_elem V) (LK : elem_law EK) (LV : elem_law EV)
+        d ss ks vs t sp (Q : cres (list (K * V)) -> spec -> Prop) :
+    msep K V EK EV LK LV (hp sp) d ss ks vs (ct_states t) (ct_keys t) (ct_values t) ->
+    Q (CrOk (sd_table_entries t)) sp -> cwp fl (lo_map_read K V EK EV d) sp Q.
+  Proof.
+    intros [_ Rs Rk Rv _ _] HQ. unfold lo_map_read.
+    apply cwp_bind. eapply cv_values_spec; [exact Rs|]. cbn [kont].
+    apply cwp_bind. eapply cv_values_spec; [exact Rk|]. cbn [kont].
+    apply cwp_bind. eapply cv_values_spec; [exact Rv|]. cbn [kont cwp]. exact HQ.
+  Qed.
+
+  Lemma lo_index_list_read_spec : forall hs ws ixs sp (Q : cres (list index) -> spec -> Prop),
+    lo_ih_rep (hp sp) hs ws ixs -> Q (CrOk (sd_ix_concrete ws ixs)) sp -> cwp fl (lo_index_list_read g0 hs) sp Q.
+  Proof.
+    induction hs as [|h r IH]; intros [|w ws] [|ix ixs] sp Q H HQ; cbn [lo_ih_rep] in H; try contradiction;
+      cbn [lo_index_list_read sd_ix_concrete] in *; [exact HQ|].
+    destruct H as [[Hk HS] Hr].
+    apply cwp_bind. eapply lo_map_read_spec; [exact HS|]. cbn [kont].
+    apply cwp_bind. eapply IH; [exact Hr|]. cbn [kont cwp]. rewrite Hk. exact HQ.
+  Qed.
+
+  Lemma lo_kvs_read_spec : forall idxs ws kvs sp (Q : cres (list (list kv)) -> spec -> Prop),
+    sd_kv_rep (hp sp) idxs ws kvs -> Q (CrOk kvs) sp -> cwp fl (lo_kvs_read g0 idxs) sp Q.
+  Proof.
+    induction idxs as [|i r IH]; intros [|w ws] [|l kvs] sp Q H HQ; cbn [sd_kv_rep] in H; try contradiction;
+      cbn [lo_kvs_read]; [exact HQ|].
+    destruct H as [Hs Hr]. apply cwp_bind.
+    destruct w as [[h bss]|]; cbn [sd_kv_slot_rep] in Hs.
+    - destruct Hs as (Hi & <- & HR). destruct (N.eqb_spec (cv_index h) 0) as [E|_]; [contradiction|].
+      eapply sd_vec_load_spec; [apply (vrep_kv_conv g0); exact HR|]. cbn [kont].
+      apply cwp_bind. eapply IH; [exact Hr|]. cbn [kont cwp]. exact HQ.
+    - destruct Hs as [-> ->]. rewrite N.eqb_refl. cbn [cwp kont].
+      apply cwp_bind. eapply IH; [exact Hr|]. cbn [kont cwp]. exact HQ.
+  Qed.
+
+  Theorem lo_prog_spec root d w sp :
+    stored_db_w (hp sp) root d w ->
+    cwp fl (lo_prog g0 (cr_ser (sw_root w))) sp (fun r sp' => sp' = sp /\ r = CrOk (sd_concrete w d)).
+  Proof.
+    intros [Hroot Hu64 _ Hg Hgi Ha1 Hk1 Ha2 Hk2 Hiv Hii Hix Hvv Hvi Hv _].
+    unfold lo_prog. apply cwp_bind. apply cwp_bind. apply cr_de_ser; [exact Hu64|]. cbn [kont].
+    unfold lo_open_root.
+    apply cwp_bind. rewrite <- Hgi. eapply cg_from_storage_spec; [exact Hg|]. intros gd Hgd _. cbn [kont].
+    destruct Ha1 as (HM1 & E1 & P1). destruct HM1 as [HS1 _ _].
+    apply cwp_bind. rewrite <- E1. eapply cm_from_storage_spec; [exact HS1|]. intros d1 HS1' _ _ _ _. cbn [kont].
+    destruct Ha2 as (HM2 & E2 & P2). destruct HM2 as [HS2 _ _].
+    apply cwp_bind. rewrite <- E2. eapply cm_from_storage_spec; [exact HS2|]. intros d2 HS2' _ _ _ _. cbn [kont].
+    apply cwp_bind. unfold lo_indexes_open. apply cwp_bind. rewrite <- Hii.
+    eapply sd_vec_load_spec; [exact Hiv|]. cbn [kont].
+    eapply lo_index_list_open_spec; [exact Hix|]. intros hs Hhs. cbn [kont].
+    apply cwp_bind. rewrite <- Hvi. eapply cv_from_storage_spec; [exact Hvv|]. intros vh Hvh _ _. cbn [kont cwp].
+    (* the complete read *)
+    unfold lo_read. cbn [lh_graph lh_aliases1 lh_aliases2 lh_indexes lh_values].
+    apply cwp_bind. unfold lo_graph_read.
+    pose proof (gr_vec _ _ _ _ Hgd GfFrom) as R1. pose proof (gr_vec _ _ _ _ Hgd GfTo) as R2.
+    pose proof (gr_vec _ _ _ _ Hgd GfFromMeta) as R3. pose proof (gr_vec _ _ _ _ Hgd GfToMeta) as R4.
+    cbn [cg_vec ga_get sd_arrays ga_from ga_to ga_from_meta ga_to_meta] in R1, R2, R3, R4.
+    apply cwp_bind. eapply cv_values_spec; [exact R1|]. cbn [kont].
+    apply cwp_bind. eapply cv_values_spec; [exact R2|]. cbn [kont].
+    apply cwp_bind. eapply cv_values_spec; [exact R3|]. cbn [kont].
+    apply cwp_bind. eapply cv_values_spec; [exact R4|]. cbn [kont cwp].
+    apply cwp_bind. eapply lo_map_read_spec; [exact HS1'|]. cbn [kont].
+    apply cwp_bind. eapply lo_map_read_spec; [exact HS2'|]. cbn [kont].
+    apply cwp_bind. eapply lo_index_list_read_spec; [exact Hhs|]. cbn [kont].
+    apply cwp_bind. eapply cv_values_spec; [exact Hvh|]. cbn [kont].
+    apply cwp_bind. eapply lo_kvs_read_spec; [exact Hv|]. cbn [kont cwp].
+    split; [reflexivity|]. unfold sd_concrete. destruct (gr d). reflexivity.
+  Qed.
+End NewSpecs.
+
+(* ---- the two loaders agree on every stored database ---- *)
+Lemma lenN_cr_ser r : lenN (cr_ser r) = 48.
+Proof. unfold cr_ser. rewrite !lenN_app, !lenN_le64. reflexivity. Qed.
+
+Theorem load_outcome_of_stored g0 m root d :
+  stored_db (m_get m) root d ->
+  exists d', load_outcome_g g0 (lo_limit m) m root = Loaded d' /\ load_db m root = Some d' /\ sd_eqv d d' /\ undo d' = [].
+Proof.
+  intros H. destruct (load_db_of_stored m root d H) as (d1 & E1 & He & Hu). destruct H as [w Hw].
+  destruct (sd_run_sound true (sd_load root) (sd_spec_of m) _ (sd_reads_load root) (sd_load_concrete true root d w (sd_spec_of m) Hw))
+    as (_ & _ & Eold).
+  cbn [sd_spec_of sm] in Eold.
+  assert (Ed : d1 = sd_concrete w d).
+  { unfold load_db in E1. rewrite Eold in E1. cbn [sd_result] in E1. congruence. }
+  subst d1. exists (sd_concrete w d). split; [|auto].
+  destruct (sd_run_sound true (lo_prog g0 (cr_ser (sw_root w))) (sd_spec_of m) _ (sd_reads_lo_prog g0 _)
+              (lo_prog_spec true g0 root d w (sd_spec_of m) Hw)) as (_ & _ & Enew).
+  cbn [sd_spec_of sm] in Enew.
+  pose proof (lo_run_cp_run (lo_limit m) m (lo_prog g0 (cr_ser (sw_root w))) (big_limit m)) as Erun.
+  rewrite Enew in Erun. cbn [lo_of_cres] in Erun.
+  unfold lo_prog in Erun. rewrite lo_run_bind in Erun.
+  unfold load_outcome_g, lo_open.
+  pose proof (sr_root _ _ _ _ Hw) as Hroot. cbn [sd_spec_of hp] in Hroot.
+  change (m_get m root = Some (cr_ser (sw_root w))) in Hroot. rewrite Hroot, lenN_cr_ser.
+  assert (Hl : (lo_limit m <? 48) = false) by (unfold lo_limit; lia). rewrite Hl.
+  replace (48 <? 40) with false by reflexivity. replace (48 <? 48) with false by reflexivity.
+  destruct (lo_run (lo_limit m) (r <~ cr_de (cr_ser (sw_root w)) ;; lo_open_root g0 r) m) as [h| | |n];
+    cbn [lo_bind] in Erun; try discriminate Erun.
+  cbn [lo_of_res]. rewrite Erun. reflexivity.
+Qed.
